@@ -217,7 +217,8 @@ func Solve(u *Unit, o *Obligation, dir string, timeout time.Duration, idx int) {
 		}
 		sp := solverSpecs(quick)[0]
 		file := base + ".stage1.smt2"
-		if err := os.WriteFile(file, []byte(sp.Pre+q), 0o644); err == nil {
+		q1 := q
+		if err := os.WriteFile(file, []byte(sp.Pre+q1), 0o644); err == nil {
 			c1, cancel1 := context.WithTimeout(context.Background(), quick+time.Second)
 			r := runSolver(c1, sp, file)
 			cancel1()
@@ -234,6 +235,19 @@ func Solve(u *Unit, o *Obligation, dir string, timeout time.Duration, idx int) {
 			if r.answer == "sat" && o.Vacuity {
 				o.Solver, o.TimeS, o.Status = r.solver, r.dur.Seconds(), "proved"
 				return
+			}
+			if o.Vacuity && qr != q {
+				// the full query was not refuted; satisfiability is then looked for on the relaxation
+				// (quantified assumptions dropped)
+				os.WriteFile(file, []byte(sp.Pre+qr), 0o644)
+				c2, cancel2 := context.WithTimeout(context.Background(), quick+time.Second)
+				r2 := runSolver(c2, sp, file)
+				cancel2()
+				os.Remove(file)
+				if r2.answer == "sat" {
+					o.Solver, o.TimeS, o.Status = "relaxed-"+r2.solver, r.dur.Seconds()+r2.dur.Seconds(), "proved"
+					return
+				}
 			}
 		}
 	}
